@@ -413,6 +413,15 @@ def _used_names_in_file(filename: Path) -> Collection[str]:
             if isinstance(node.value, ast.Name) and node.value.id in imported_names:
                 names.append(node.value.id)
 
+    # "from lib import helper as h" needs lib.helper, whether or not the file goes on to use it
+    # (it may only re-export it); what "from lib import *" needs is any name the file mentions
+    for node in core.walk(ast_root, ast.ImportFrom):
+        for alias in node.names:
+            if alias.name == "*":
+                names.extend(name.id for name in core.walk(ast_root, ast.Name))
+            else:
+                names.append(alias.name)
+
     return frozenset(names)
 
 
@@ -445,7 +454,7 @@ def main(argv: Sequence[str] | None = None) -> int:
         temp_stdout = io.StringIO()
         sys_stdout = sys.stdout
         used_names = _used_names_in_files(_iter_python_files(args.preserve))
-        preserve = set.union(*used_names.values()) if used_names else set()
+        preserve = frozenset().union(*used_names.values())
         try:
             sys.stdout = temp_stdout
             source = format_code(source, preserve=preserve, safe=args.safe)
